@@ -224,24 +224,64 @@ Inductive scan_result :=
 | ScanOk (d : option dialect) (s : schema) (rows : option (list (list (option (list N))))).
 (* rows = None: the scan raises an error *)
 
-(* ReadCsv::bind on the first `sample_len` bytes, then CsvReader over `chunks` (the file cut at the read-buffer
-   size) with batches of `out_cap` rows.  `eof`: the sample reached the end of the file (fewer bytes than the
-   4096-byte buffer were read): the sample then gets the end-of-input signal like the scan does. *)
-Definition read_csv (sample : list N) (eof : bool) (out_cap : nat) (chunks : list (list N)) : scan_result :=
-  match infer_dialect sample eof with
-  | None => ScanPanic
+(* file.call_read_fill(&mut buf[..k]): (bytes read, rest of the file, buffer filled?) *)
+Fixpoint split_n (l : list N) (k : N) : list N * list N * bool :=
+  if (k =? 0)%N then ([], l, true)
+  else match l with
+       | [] => ([], [], false)
+       | x :: r => let '(a, b, f) := split_n r (N.pred k) in (x :: a, b, f)
+       end.
+
+Record bind_sample_result := { bs_dialect : option dialect; bs_recs : list (list (list N)); bs_eof : bool; bs_len : N }.
+
+(* the loop of ReadCsv::bind: `acc` = infer_buf[0..n], `buflen` = infer_buf.len(), `eof` = n < infer_buf.len(), `rest` =
+   the file after the bytes read so far.  Dialect and records are inferred from the sample; if it holds fewer than two
+   complete records, does not reach the end of the file and is shorter than `max` (MAX_INFER_BUF_SIZE) the buffer
+   is doubled and filled.  None = a panic, or the fuel ran out (never with fuel > log2 max and buflen >= 1). *)
+Fixpoint bind_sample (fuel : nat) (max buflen : N) (acc rest : list N) (eof : bool) : option bind_sample_result :=
+  match infer_dialect acc eof with
+  | None => None
   | Some od =>
       let d := match od with Some d => d | None => default_dialect end in
-      match run_sample d eof sample with
-      | None => ScanPanic
+      match run_sample d eof acc with
+      | None => None
       | Some recs =>
-          match infer_schema recs with
-          | None => ScanBindErr
-          | Some s =>
-              match reader_loop_h d out_cap (has_header s) h_init chunks with
-              | None => ScanPanic
-              | Some rows => ScanOk od s (type_rows (col_types s) rows)
-              end
+          if (2 <=? length recs) || eof || (max <=? buflen)%N
+          then Some {| bs_dialect := od; bs_recs := recs; bs_eof := eof; bs_len := buflen |}
+          else match fuel with
+               | O => None
+               | S k =>
+                   let '(more, rest', filled) := split_n rest buflen in
+                   bind_sample k max (2 * buflen)%N (acc ++ more) rest' (negb filled)
+               end
+      end
+  end.
+
+(* OLD (before the sample could grow): one read of `init` bytes *)
+Definition bind_sample_old (init : N) (data : list N) : option bind_sample_result :=
+  let '(first, rest, filled) := split_n data init in bind_sample 0 0 init first rest (negb filled).
+
+Definition bind_sample_file (init max : N) (data : list N) : option bind_sample_result :=
+  let '(first, rest, filled) := split_n data init in
+  bind_sample (S (N.to_nat (N.log2 max))) max init first rest (negb filled).
+
+(* ReadCsv::bind (init = INFER_BUF_SIZE, max = MAX_INFER_BUF_SIZE) on the file `data`, then CsvReader over `chunks`
+   (the same file cut at the read-buffer size) with batches of `out_cap` rows. *)
+Definition read_csv_with (sample : option bind_sample_result) (out_cap : nat) (chunks : list (list N)) : scan_result :=
+  match sample with
+  | None => ScanPanic
+  | Some r =>
+      let d := match bs_dialect r with Some d => d | None => default_dialect end in
+      match infer_schema (bs_recs r) with
+      | None => ScanBindErr
+      | Some s =>
+          match reader_loop_h d out_cap (has_header s) h_init chunks with
+          | None => ScanPanic
+          | Some rows => ScanOk (bs_dialect r) s (type_rows (col_types s) rows)
           end
       end
   end.
+Definition read_csv (init max : N) (data : list N) (out_cap : nat) (chunks : list (list N)) : scan_result :=
+  read_csv_with (bind_sample_file init max data) out_cap chunks.
+Definition read_csv_old (init : N) (data : list N) (out_cap : nat) (chunks : list (list N)) : scan_result :=
+  read_csv_with (bind_sample_old init data) out_cap chunks.
